@@ -554,7 +554,6 @@ def check_filter(c, out, orc):
             if not any(orc.eq(k(it), s) == 1 for s in seen):
                 want.append(it); seen.append(k(it))
         if want != outl:
-            drop = [i for i in citems if i not in outl]
             bad.append(("unique-first-occurrences", "output %s, expected the first occurrence of every key: %s" % (show(res), "[" + ", ".join(show(i) for i in want) + "]"),
                         None))
         return bad
@@ -649,7 +648,7 @@ def main():
         "values: machine integers in range of their representation, floats = IEEE binary64 bit patterns, maps satisfy the BTreeMap invariant (keys strictly ascending); default feature set (BTreeMap-backed maps, `unicode` off: ASCII case folding)",
         "modelled: impl PartialEq/Ord/Hash for Value, ops.rs::{as_f64,coerce}, TryFrom<Value> for i64/i128, Hash for DynObject, BTreeMap get/insert, filters.rs::{cmp_helper,sort,unique,groupby,batch,slice,reverse,min,max}; slice::sort_by is modelled as a stable insertion sort, the hasher as a function of the byte stream it is fed",
         "object identity (is_same_object), custom_cmp objects, maps of unknown length and Invalid values are outside the model and the pools",
-        "byte strings in the filter pools are pure ASCII or contain 0xFF (Value::as_str's UTF-8 validation is modelled for these only)"]
+        "byte strings in the filter pools are pure ASCII or contain 0xFF (Value::as_str's UTF-8 validation, used by `last`, is modelled for these only); slice with a huge count is not exercised (its output has `count` runs by definition)"]
     ok_models, blog = build_models("C07")
     proofs_ok = chk.run_proofs()
     okc, clog = cargo_build(["c07"], release=False)
